@@ -847,6 +847,69 @@ def unchain_cipher_construction(tree):
     return tree
 
 
+def index_loops_to_enumerate(tree):
+    """`i = 0; while i < len(A): BODY; i += 1`  →  `for i in range(len(A)): BODY`  →  `for i, x in enumerate(A): BODY'`
+    where BODY is one `if TEST: A[i] op= c` and BODY' reads `x` for `A[i]` in TEST — the element is read before it is
+    written and nothing but element `i` is touched, so every iteration sees the value `enumerate` hands out.  `i` must
+    not be used after the loop."""
+    def uses_after(stmts, k, name):
+        return any(isinstance(n, ast.Name) and n.id == name for s in stmts[k:] for n in ast.walk(s))
+
+    def f(stmts):
+        out = []
+        i = 0
+        while i < len(stmts):
+            s = stmts[i]
+            nxt = stmts[i + 1] if i + 1 < len(stmts) else None
+            # while form -> for-range form
+            if (isinstance(s, ast.Assign) and len(s.targets) == 1 and isinstance(s.targets[0], ast.Name) and isinstance(s.value, ast.Constant)
+                    and s.value.value == 0 and not isinstance(s.value.value, bool) and isinstance(nxt, ast.While) and not nxt.orelse):
+                iv = s.targets[0].id
+                t = nxt.test
+                last = nxt.body[-1] if nxt.body else None
+                ok = (isinstance(t, ast.Compare) and len(t.ops) == 1 and isinstance(t.ops[0], ast.Lt) and isinstance(t.left, ast.Name) and t.left.id == iv
+                      and isinstance(t.comparators[0], ast.Call) and isinstance(t.comparators[0].func, ast.Name) and t.comparators[0].func.id == "len"
+                      and len(t.comparators[0].args) == 1 and isinstance(t.comparators[0].args[0], ast.Name)
+                      and isinstance(last, ast.AugAssign) and isinstance(last.op, ast.Add) and isinstance(last.target, ast.Name) and last.target.id == iv
+                      and isinstance(last.value, ast.Constant) and last.value.value == 1
+                      and not any(isinstance(n, (ast.Break, ast.Continue)) for b in nxt.body for n in ast.walk(b))
+                      and not any(isinstance(n, ast.Name) and n.id == iv and isinstance(n.ctx, ast.Store) for b in nxt.body[:-1] for n in ast.walk(b))
+                      and not uses_after(stmts, i + 2, iv))
+                if ok:
+                    arr = t.comparators[0].args[0]
+                    rng = ast.Call(func=ast.Name(id="range", ctx=ast.Load()), args=[ast.Call(func=ast.Name(id="len", ctx=ast.Load()), args=[arr], keywords=[])], keywords=[])
+                    s = ast.copy_location(ast.For(target=ast.Name(id=iv, ctx=ast.Store()), iter=rng, body=nxt.body[:-1], orelse=[]), nxt)
+                    i += 1                                  # the `i = 0` statement is absorbed
+            # for-range form -> enumerate form
+            if (isinstance(s, ast.For) and not s.orelse and isinstance(s.target, ast.Name) and isinstance(s.iter, ast.Call)
+                    and isinstance(s.iter.func, ast.Name) and s.iter.func.id == "range" and len(s.iter.args) == 1 and not s.iter.keywords
+                    and isinstance(s.iter.args[0], ast.Call) and isinstance(s.iter.args[0].func, ast.Name) and s.iter.args[0].func.id == "len"
+                    and len(s.iter.args[0].args) == 1 and isinstance(s.iter.args[0].args[0], ast.Name)
+                    and len(s.body) == 1 and isinstance(s.body[0], ast.If) and not s.body[0].orelse and len(s.body[0].body) == 1
+                    and isinstance(s.body[0].body[0], ast.AugAssign) and not uses_after(stmts, i + 1, s.target.id)):
+                iv, arr = s.target.id, s.iter.args[0].args[0].id
+                aug = s.body[0].body[0]
+                elem = f"{arr}[{iv}]"
+                if ast.unparse(aug.target) == elem:
+                    x = "_elem_" + iv
+
+                    class R(ast.NodeTransformer):
+                        def visit_Subscript(self, n):
+                            if ast.unparse(n) == elem and isinstance(n.ctx, ast.Load):
+                                return ast.copy_location(ast.Name(id=x, ctx=ast.Load()), n)
+                            return self.generic_visit(n)
+                    test = R().visit(copy.deepcopy(s.body[0].test))
+                    if not any(isinstance(n, ast.Name) and n.id in (iv, arr) for n in ast.walk(test)):
+                        s.body[0].test = test
+                        s.target = ast.Tuple(elts=[ast.Name(id=iv, ctx=ast.Store()), ast.Name(id=x, ctx=ast.Store())], ctx=ast.Store())
+                        s.iter = ast.Call(func=ast.Name(id="enumerate", ctx=ast.Load()), args=[ast.Name(id=arr, ctx=ast.Load())], keywords=[])
+            out.append(s)
+            i += 1
+        return out
+    tree.body = _map_body(tree.body, f)
+    return tree
+
+
 def swap_is_not_none(tree):
     """`if X is not None: A else: B` is `if X is None: B else: A`"""
     def f(stmts):
@@ -885,6 +948,7 @@ def normalise(tree, public=(), signatures=None, aliases=None):
     tree = ifexp_to_if(tree)
     tree = unroll_constant_loops(tree)
     tree = small_equivalences(tree)
+    tree = index_loops_to_enumerate(tree)
     tree = unchain_cipher_construction(tree)
     tree = push_call_into_branches(tree)
     tree = split_none_elif(tree)
